@@ -159,14 +159,14 @@ def handlePtree (smart spans syn kw endN ik idata tbl names groups skip start pr
       | .ok P =>
         -- hypotheses of `C04.parse_node_span`, checked on every request
         if ¬ parserOk P then "bad-grammar" else
-        match runTok cfg inp tbl with
-        | none => "bad-table"
-        | some (.error x) => showTokErr x
-        | some (.ok ts) =>
-          match parseToks names cfg P ts parseFuel with
-          | none => "bad-op"
-          | some (.error e) => showParseErr e
-          | some (.ok t) => "ok " ++ ";".intercalate (t.preorder.map fun sp => withOrig inp sp.s sp.e)
+        let lines := tokLines ws inp
+        if ¬ tableOk cfg.spanKinds lines tbl then "bad-table" else
+        match parseText B names cfg (reOfTable cfg.spanKinds tbl) P lines parseFuel with
+        | .lex p => showTokErr (.lexical p)
+        | .tokErr e => showTokErr (.py e)
+        | .noNames => "bad-op"
+        | .parsed (.error e) => showParseErr e
+        | .parsed (.ok t) => "ok " ++ ";".intercalate (t.preorder.map fun sp => withOrig inp sp.s sp.e)
   | _, _, _, _, _, _, _, _ => "bad-op"
 
 /-- a sequence of `get_orig_text` calls with several texts: the model has no memory, every call is answered
@@ -219,6 +219,15 @@ def handle (line : String) : String :=
         | .ok (_, _, all) => "ok " ++ ";".intercalate (all.map fun n => withOrig inp n.span.s n.span.e)
     | _, _, _, _, _ => "bad-op"
   | ["gseq", texts, calls] => handleGseq texts calls
+  | ["plex", _cfgid, _gid, _smart, spans, syn, kw, endN, ik, idata, tbl] =>
+    -- the tokenization outcome of `parse(text)`, whatever the grammar: LexicalError or "tokenized"
+    match parseCfg spans syn kw endN, parseInput ik idata, parseTable tbl with
+    | some cfg, some inp, some tbl =>
+      match runTok cfg inp tbl with
+      | none => "bad-table"
+      | some (.error x) => showTokErr x
+      | some (.ok _) => "ok"
+    | _, _, _ => "bad-op"
   | ["ptree", _cfgid, _gid, smart, spans, syn, kw, endN, ik, idata, tbl, names, groups, skip, start, prods] =>
     handlePtree smart spans syn kw endN ik idata tbl names groups skip start prods
   | _ => "bad-op"
